@@ -168,6 +168,8 @@ def run(index, tier="quick", seed=0) -> Result:
             res.bad("ST-4", "Shape2D.iq", f"{f2.file}:{f2.lineno}", f"Shape2D.iq = {iq2.sym}, expected 4 pi A / P^2")
     else:
         res.not_in_fragment.append("ST-4 Shape2D.iq")
+    from ..parallel import report as _copy1
+    _copy1(res, index, lambda f: f['cls'] in ('ConvexSpheropolygon', 'ConvexSpheropolyhedron') and f['top'] in ('volume', 'surface_area', 'mean_curvature', 'signed_area', 'area', 'perimeter') or (f['cls'] == 'ConvexPolyhedron' and f['top'] in ('mean_curvature', 'tau', 'asphericity')))
     return res
 
 
